@@ -49,7 +49,7 @@ def shapes():
 PLAN_FILES = {"run.py", "git.py", "planner.py", "base.py", "version_index.py"}
 
 
-def make(shape, seed, abort_at=None, after_fork=None, sig="SIGINT", log=False):
+def make(shape, seed, abort_at=None, after_fork=None, sig="SIGINT", log=False, in_write=None):
     name, g, jobs = shape[:3]
     codes = shape[3] if len(shape) > 3 else {}
     fail_launch = shape[4] if len(shape) > 4 else []
@@ -66,6 +66,7 @@ def make(shape, seed, abort_at=None, after_fork=None, sig="SIGINT", log=False):
         scn["reusable_override"] = {"//:t1": True, "//:t2": False}
     scn["abort_at"] = abort_at
     scn["abort_after_fork"] = after_fork
+    scn["abort_in_write"] = in_write
     scn["abort_sig"] = sig
     scn["count_lines"] = True
     scn["log_lines"] = log
@@ -118,6 +119,9 @@ def main(tier):
             picks = set(range(1, L + 1))
         for k in sorted(picks):
             scns.append(make(s, seed, abort_at=k, sig="SIGTERM" if k % 5 == 0 else "SIGINT"))
+        # ... and while the main thread is inside a write to its own stdout / stderr (blocked on a stalled pipe)
+        for w in range(1, r.get("writes", 0) + 1, 2 if tier == "quick" else 1):
+            scns.append(make(s, seed, in_write=w, sig="SIGTERM" if w % 4 == 0 else "SIGINT"))
         nsp = sum(1 for e in r["events"] if e["e"] == "Spawn")
         for o in range(1, nsp + 1):
             scns.append(make(s, seed, after_fork=o))
@@ -177,8 +181,10 @@ def main(tier):
         t = traces[len(traces) // 2]
         rep.add_sample({"shape": scns[t["id"]]["shape"], "abort_at": scns[t["id"]]["abort_at"],
                         "events": [[e["e"], e.get("t")] for e in t["events"]]})
-    rep.assumptions += ["signal delivery points = executed lines of Conductor's own code in the main thread, plus the return of "
-                        "fork_exec; delivery inside other library calls is represented by the adjacent lines",
+    rep.assumptions += ["signal delivery points = executed lines of Conductor's own code in the main thread, the return of "
+                        "fork_exec, and the inside of each write of the main thread to stdout / stderr (the stream is locked while "
+                        "the handler runs, as io.BufferedWriter is); delivery inside other library calls is represented by the "
+                        "adjacent lines",
                         "FakeKernel: SIGTERM to a process group terminates the (fake) child"]
     return rep.finish()
 
